@@ -49,8 +49,33 @@ def build(case):
             t = G.ControlledGate(G.RyGate(0.4, qs[7]), 1, [case.get("inner", 1)]).set_control(qs[6])
         else:
             t = G.HadamardGate(qs[7])
-        g = G.ControlledGate(t, len(case["cs"]), list(case["cs"]))
+        # the control pattern in the argument form of the case: list (default), tuple, integer ndarray, list of bools, int8 ndarray
+        form = case.get("csform", "list")
+        cs = {"list": lambda v: list(v), "tuple": lambda v: tuple(v), "ndarray": lambda v: np.array(v, dtype=int),
+              "bools": lambda v: [bool(b) for b in v], "int8": lambda v: np.array(v, dtype=np.int8)}[form](case["cs"])
+        g = G.ControlledGate(t, len(case["cs"]), cs)
         g.set_control(qs[:len(case["cs"])])
+        return g
+    if k == "mplx-near":
+        # different targets that the library's own `==` (np.allclose) calls equal: block k must still be the k-th target
+        qs = c["qubits"]
+        if case["tcls"] == "rotation":
+            ts = [G.RotationGate(np.array(v, dtype=float), qs[7]) for v in case["vs"]]
+        elif case["tcls"] == "prepare":
+            ts = [G.PrepareGate(np.array(v, dtype=float), 1).on([qs[7]]) for v in case["vs"]]
+        else:
+            base = GL.random_unitary(1, random.Random(case["seed"]))
+            ts = [G.GeneralGate(base @ np.diag([1.0, np.exp(1j * e)]), 1).on(qs[7]) for e in case["vs"]]
+        g = G.MultiplexedGate(ts, case["nc"])
+        g.set_control(qs[:case["nc"]])
+        return g
+    if k == "prepare-buffer":
+        # the caller builds the gate from a work buffer (float ndarray) and then reuses the buffer: the gate keeps the vector it was
+        # built from (the constructor copies: `np.array(vec)`)
+        buf = np.array(case["v"], dtype=float)
+        g = G.PrepareGate(buf, case["n"], transpose=case["tr"])
+        buf[:] = np.array(case["v2"], dtype=float)
+        g._built_from = np.array(case["v"], dtype=float)
         return g
     if k == "mplx-herm":
         # targets of ONE class whose answer depends on the instance: user-defined / controlled gates, Hermitian and not, in a given order
@@ -81,8 +106,14 @@ def impl(case):
     out = {"desc": describe(g), "ckey": class_key(g)}
     m = np.asarray(g.as_matrix(), dtype=complex)
     tree, notes = to_tree(g)
-    inv = g.inverse()
-    mi = np.asarray(inv.as_matrix(), dtype=complex)
+    try:
+        inv = g.inverse()
+        mi = np.asarray(inv.as_matrix(), dtype=complex)
+    except Exception as e:
+        # the gate exists and has a matrix, but asking for its inverse fails: a failing input of C03 (reported by its oracle)
+        e.inverse_raised = f"{describe(g)} (bound={all(p is not None for p in g.particles()) if hasattr(g, 'particles') else '?'}): inverse() raised {type(e).__name__}: {e}"
+        e.ckey = class_key(g)
+        raise
     out["wires"] = int(g.num_wires)
     out["invwires"] = int(inv.num_wires)
     out["herm"] = bool(g.is_hermitian())
@@ -229,7 +260,7 @@ def oracle_c02(case, o):
         if m.shape != (2 * d, 2 * d) or float(np.max(np.abs(m[:d, :d] - h))) > TOL:
             bad.append((f"C02:block-topleft:{o['ckey']}", f"{o['desc']}: top-left block is not the encoded operator"))
     if n == "PrepareGate":
-        v = np.asarray(g.vec, dtype=float)
+        v = np.asarray(getattr(g, "_built_from", g.vec), dtype=float)
         col = np.sign(v) * np.sqrt(np.abs(v) / np.sum(np.abs(v)))
         got = m[0, :] if g.transpose else m[:, 0]
         if float(np.max(np.abs(got - col))) > TOL:
@@ -238,6 +269,8 @@ def oracle_c02(case, o):
 
 
 def oracle_c03(case, o):
+    if "inverse_raised" in o:
+        return [(f"C03:inverse-raised:{o.get('ckey')}", o["inverse_raised"])]
     if "harness_exception" in o:
         return []
     bad = []
@@ -292,6 +325,19 @@ def gen_cases(tier, rng):
             if nc == 3 and w == 2 and not thorough:
                 continue
             yield {"kind": "mplx", "nc": nc, "w": w, "seed": rng.randrange(10 ** 9)}
+    for form in ("tuple", "ndarray", "bools", "int8"):
+        for cs in ([0], [1], [0, 1], [1, 0], [0, 0, 1]):
+            yield {"kind": "ctrl", "cs": cs, "csform": form, "target": rng.choice(["ry", "sgate"]), "seed": rng.randrange(10 ** 9), "theta": rng.uniform(-3, 3)}
+    for nc, vs in ((1, [[0, 0, 400.0], [0, 0, 400.003]]), (1, [[1.0, 2.0, 2.0], [1.0, 2.0, 2.0 + 3e-8]]), (2, [[0.3, 0, 0], [0.3, 1e-9, 0], [0.3, 0, 0], [0.3, 0, 2e-9]])):
+        yield {"kind": "mplx-near", "tcls": "rotation", "vs": vs, "nc": nc}
+        yield {"kind": "mplx-near", "tcls": "rotation", "vs": vs[::-1], "nc": nc}
+    yield {"kind": "mplx-near", "tcls": "prepare", "vs": [[0.5, 0.5], [0.5, 0.5 + 1e-9]], "nc": 1}
+    yield {"kind": "mplx-near", "tcls": "prepare", "vs": [[1.0, 0.0], [1.0, 1e-9]], "nc": 1}
+    yield {"kind": "mplx-near", "tcls": "general", "vs": [0.0, 1e-9], "nc": 1, "seed": rng.randrange(10 ** 9)}
+    yield {"kind": "mplx-near", "tcls": "general", "vs": [2e-9, 0.0, 0.0, 1e-9], "nc": 2, "seed": rng.randrange(10 ** 9)}
+    for n_, v, v2 in ((2, [4, -3, 2, 1], [1, 1, 1, 1]), (1, [0.25, 0.75], [0.9, -0.1]), (2, [0, 0.5, 0.25, 0.25], [1, 0, 0, 0])):
+        for tr in (False, True):
+            yield {"kind": "prepare-buffer", "n": n_, "v": v, "v2": v2, "tr": tr}
     for tcls in ("general", "controlled"):
         for names in (["X", "Z"], ["X", "S"], ["S", "X"], ["Z", "Y", "X", "I"], ["X", "Z", "Y", "T"], ["X", "S", "Z", "Z"], ["T", "X", "X", "X"]):
             yield {"kind": "mplx-herm", "tcls": tcls, "names": names, "nc": 1 if len(names) == 2 else 2}
@@ -306,6 +352,7 @@ def run_gate_check(rep, drv, tier, rng, oracle, what, opname):
     """drive `gate.all` for every case; `what` = which parts of the model reply are compared"""
     from common import run_correspondence
     ctx()
+    opname_prop = [rep.prop]
 
     def mreq(case, o):
         if "_tree" not in o:   # implementation crashed on this case: send an empty leaf so the batch stays aligned
@@ -314,6 +361,14 @@ def run_gate_check(rep, drv, tier, rng, oracle, what, opname):
 
     def orc(case, o):
         out = oracle(case, o)
+        if "harness_exception" in o and case.get("kind") != "random":
+            # the fixed-form cases are all valid constructions: an exception while building or viewing one is a failing input
+            pid = opname_prop[0]
+            out = list(out) + [(f"{pid}:valid-gate-raised:{case.get('kind')}:{case.get('cls', case.get('tcls', case.get('csform', '')))}",
+                                f"constructing / viewing the valid gate of case {case} raised {o['harness_exception']}")]
+        if case.get("kind") == "ctrl" and "_g" in o and [int(b) for b in o["_g"].ctrl_state] != [int(b) for b in case["cs"]]:
+            out = list(out) + [(f"{opname_prop[0]}:control-pattern-not-the-given-one:{case.get('csform', 'list')}",
+                                f"ControlledGate built with ctrl_state={case['cs']} (passed as {case.get('csform', 'list')}) acts on pattern {list(o['_g'].ctrl_state)}")]
         for nt in o.get("notes", []):
             rep.count("assumption:" + nt)
         rep.count("class:" + o.get("ckey", "?").split("<")[0])
